@@ -467,4 +467,198 @@ theorem cands_rank (S : Suite) (allow : String → List String) (rk : Name → N
   obtain ⟨s0, hs0, hget, _⟩ := instSlots_get t a s hs
   exact hrk t ht s0 hs0 t1 ht1 (hget ▸ hg) (hget ▸ hcon)
 
+/-! ## nodes and edges of the restricted copy versus the unrestricted copy (abstract `al ⊆ au`) -/
+
+theorem bare_restrict_subset (S : Suite) (al au : String → List String) (hsub : ∀ vm v, v ∈ al vm → v ∈ au vm)
+    (sel : List RLine) (x : Name × Asg) (hx : x ∈ (workerNodes S al sel).map Inst.bare) :
+    x ∈ (workerNodes S au sel).map Inst.bare ∧ ∀ e ∈ x.2, e.2 ∈ al e.1 := by
+  obtain ⟨t, ht, a, ha, g, t', a', hd, rfl⟩ := (mem_bare_workerNodes S al sel x).mp hx
+  obtain ⟨ha1, ha2⟩ := (leafAsgs_restrict S al au hsub t a).mp ha
+  exact ⟨(mem_bare_workerNodes S au sel _).mpr ⟨t, ht, a, ha1, g, t', a', Dep_mono S al au hsub hd, rfl⟩,
+    Dep_ok S al hd ha2⟩
+
+theorem bare_restrict_subst (S : Suite) (al au : String → List String) (hsub : ∀ vm v, v ∈ al vm → v ∈ au vm)
+    (σ : String → String) (hσ : SubstOK S al au σ) (sel : List RLine) (x : Name × Asg)
+    (hx : x ∈ (workerNodes S au sel).map Inst.bare) (hok : ∀ e ∈ x.2, e.2 ∈ al e.1) :
+    x ∈ (workerNodes S al sel).map Inst.bare := by
+  obtain ⟨t, ht, a, ha, g, t', a', hd, rfl⟩ := (mem_bare_workerNodes S au sel x).mp hx
+  have hd' := Dep_subst S al au hsub σ hσ hd
+  rw [subA_id al σ a' hok] at hd'
+  exact (mem_bare_workerNodes S al sel _).mpr
+    ⟨t, ht, _, leafAsgs_subst S al au hsub σ hσ t (selected_subset S sel t ht) a ha, g, t', a', hd', rfl⟩
+
+theorem PEdge_mono (S : Suite) (al au : String → List String) (hsub : ∀ vm v, v ∈ al vm → v ∈ au vm)
+    (sel : List RLine) (x y : Name × Asg) (h : PEdge S al sel x y) :
+    PEdge S au sel x y ∧ ∀ e ∈ y.2, e.2 ∈ al e.1 := by
+  obtain ⟨t0, ht0, a0, ha0, f, t, a, s, t1, a1, hd, hx, hs, hc, rfl⟩ := h
+  obtain ⟨hc1, hc2⟩ := (cands_restrict S al au hsub a s t1 a1).mp hc
+  exact ⟨⟨t0, ht0, a0, ((leafAsgs_restrict S al au hsub t0 a0).mp ha0).1, f, t, a, s, t1, a1,
+    Dep_mono S al au hsub hd, hx, hs, hc1, rfl⟩, hc2⟩
+
+/-- test names identify the tests of the suite -/
+def UniqueNames (S : Suite) : Prop := ∀ t ∈ S.tests, ∀ t' ∈ S.tests, t.name = t'.name → t = t'
+
+/-- the acyclicity rank stays below the resolver's fuel (always achievable for an acyclic suite: the fuel is the
+number of tests plus one) -/
+def RankBound (S : Suite) (rk : Name → Nat) : Prop := ∀ t ∈ S.tests, rk t.name < S.fuel
+
+theorem PEdge_restrict_back (S : Suite) (al au : String → List String) (hsub : ∀ vm v, v ∈ al vm → v ∈ au vm)
+    (hun : UniqueNames S) (rk : Name → Nat) (hrk : RankOK S rk) (hb : RankBound S rk)
+    (sel : List RLine) (x y : Name × Asg) (hx : x ∈ (workerNodes S al sel).map Inst.bare)
+    (h : PEdge S au sel x y) (hok : ∀ e ∈ y.2, e.2 ∈ al e.1) : PEdge S al sel x y := by
+  obtain ⟨t0', ht0', a0', ha0', g, t', a', hd', rfl⟩ := (mem_bare_workerNodes S al sel x).mp hx
+  obtain ⟨t0, ht0, a0, _, f, t, a, s, t1, a1, hd, hxe, hs, hc, rfl⟩ := h
+  have ht0m := selected_subset S sel t0 ht0
+  have ht0m' := selected_subset S sel t0' ht0'
+  obtain ⟨htm, _⟩ := Dep_rank S au rk hrk hd ht0m (hb t0 ht0m)
+  obtain ⟨htm', hrk'⟩ := Dep_rank S al rk hrk hd' ht0m' (hb t0' ht0m')
+  simp only [Prod.mk.injEq] at hxe
+  obtain ⟨hn, rfl⟩ := hxe
+  have : t' = t := hun t' htm' t htm hn
+  subst this
+  have hlt := cands_rank S au rk hrk t' htm' a' s hs t1 a1 hc
+  obtain ⟨g', rfl⟩ : ∃ g', g = g' + 1 := ⟨g - 1, by omega⟩
+  exact ⟨t0', ht0', a0', ha0', g', t', a', s, t1, a1, hd', rfl, hs,
+    (cands_restrict S al au hsub a' s t1 a1).mpr ⟨hc, hok⟩, rfl⟩
+
+/-- the least set of bare nodes containing `leaves` and closed under `par`-steps to nodes satisfying `ok` -/
+inductive Needed (leaves : Name × Asg → Prop) (par : Name × Asg → Name × Asg → Prop) (ok : Asg → Prop) :
+    Name × Asg → Prop
+  | leaf (x : Name × Asg) : leaves x → Needed leaves par ok x
+  | step (x y : Name × Asg) : Needed leaves par ok x → par x y → ok y.2 → Needed leaves par ok y
+
+/-- what of the unrestricted copy (`au`) a worker restricted to `al` still needs: start at the selected tests
+composed with variants `al` allows, follow the edges of the unrestricted copy to parents on allowed variants -/
+def NeededA (S : Suite) (al au : String → List String) (sel : List RLine) : Name × Asg → Prop :=
+  Needed (fun x => ∃ t ∈ selected S sel, x.1 = t.name ∧ x.2 ∈ leafAsgs S al t)
+    (fun x y => y ∈ bareParents (workerNodes S au sel) x) (fun a => ∀ e ∈ a, e.2 ∈ al e.1)
+
+theorem needed_of_dep (S : Suite) (al au : String → List String) (hsub : ∀ vm v, v ∈ al vm → v ∈ au vm)
+    (sel : List RLine) {f : Nat} {t : Test} {a : Asg} {g : Nat} {t' : Test} {a' : Asg}
+    (h : Dep S al f t a g t' a')
+    (hpath : ∃ t0 ∈ selected S sel, ∃ a0 ∈ leafAsgs S au t0, Dep S au S.fuel t0 a0 f t a)
+    (hn : NeededA S al au sel (t.name, a)) (hg : 1 ≤ g) : NeededA S al au sel (t'.name, a') := by
+  induction h with
+  | refl f t a => exact hn
+  | step f t a s t1 a1 g t' a' hs hc hd ih =>
+    have hle := hd.le
+    obtain ⟨f', rfl⟩ : ∃ f', f = f' + 1 := ⟨f - 1, by omega⟩
+    obtain ⟨t0, ht0, a0, ha0, hp⟩ := hpath
+    obtain ⟨hc1, hc2⟩ := (cands_restrict S al au hsub a s t1 a1).mp hc
+    refine ih ⟨t0, ht0, a0, ha0, hp.snoc s t1 a1 hs hc1⟩ ?_ hg
+    refine Needed.step (t.name, a) (t1.name, a1) hn ?_ hc2
+    exact (mem_bareParents_workerNodes S au sel _ _).mpr ⟨t0, ht0, a0, ha0, f', t, a, s, t1, a1, hp, rfl, hs, hc1, rfl⟩
+
+/-- every node of the restricted copy is needed in the above sense (no hypothesis on the suite) -/
+theorem needed_of_bare (S : Suite) (al au : String → List String) (hsub : ∀ vm v, v ∈ al vm → v ∈ au vm)
+    (sel : List RLine) (x : Name × Asg) (hx : x ∈ (workerNodes S al sel).map Inst.bare) :
+    NeededA S al au sel x := by
+  obtain ⟨t, ht, a, ha, g, t', a', hd, rfl⟩ := (mem_bare_workerNodes S al sel x).mp hx
+  refine needed_of_dep S al au hsub sel hd
+    ⟨t, ht, a, ((leafAsgs_restrict S al au hsub t a).mp ha).1, Dep.refl _ _ _⟩ ?_ (by omega)
+  exact Needed.leaf _ ⟨t, ht, rfl, ha⟩
+
+theorem bare_of_needed (S : Suite) (al au : String → List String) (hsub : ∀ vm v, v ∈ al vm → v ∈ au vm)
+    (hun : UniqueNames S) (rk : Name → Nat) (hrk : RankOK S rk) (hb : RankBound S rk)
+    (sel : List RLine) (x : Name × Asg) (hx : NeededA S al au sel x) :
+    x ∈ (workerNodes S al sel).map Inst.bare := by
+  induction hx with
+  | leaf x hl =>
+    obtain ⟨t, ht, hn, ha⟩ := hl
+    exact (mem_bare_workerNodes S al sel x).mpr
+      ⟨t, ht, x.2, ha, S.tests.length, t, x.2, Dep.refl _ _ _, by rw [← hn]⟩
+  | step x y _ hpar hok ih =>
+    have hp := (mem_bareParents_workerNodes S au sel x y).mp hpar
+    exact PEdge_target S al sel x y (PEdge_restrict_back S al au hsub hun rk hrk hb sel x y ih hp hok)
+
+/-! ## the copies of concrete workers -/
+
+/-- the (test, per-vm variant assignment) pairs of a worker's copy -/
+def copyTests (S : Suite) (user : List (String × VLine)) (sel : List RLine) (w : Worker) : List (Name × Asg) :=
+  (resolveWorker S user sel w).nodes.map (fun n => n.inst.key.bare)
+
+/-- the parents of the bare node `x` along the edges of a worker's copy, labels erased -/
+def copyParents (S : Suite) (user : List (String × VLine)) (sel : List RLine) (w : Worker) (x : Name × Asg) :
+    List (Name × Asg) :=
+  ((resolveWorker S user sel w).edges.filter (fun e => decide (e.child.bare = x))).map (fun e => e.parent.bare)
+
+theorem copyTests_eq (S : Suite) (user : List (String × VLine)) (sel : List RLine) (w : Worker) :
+    copyTests S user sel w = (workerNodes S (allowed S user w) sel).map Inst.bare := by
+  simp only [copyTests, resolveWorker, List.map_map]
+  rfl
+
+theorem mem_copyParents (S : Suite) (user : List (String × VLine)) (sel : List RLine) (w : Worker)
+    (x y : Name × Asg) :
+    y ∈ copyParents S user sel w x ↔ y ∈ bareParents (workerNodes S (allowed S user w) sel) x := by
+  simp only [copyParents, List.mem_map, List.mem_filter, decide_eq_true_eq, mem_bareParents]
+  constructor
+  · rintro ⟨e, ⟨he, hc⟩, hp⟩
+    obtain ⟨_, i, hi, hk, hpar⟩ := (mem_worker_edges S user sel w e).mp he
+    exact ⟨i, hi, by rw [Inst.bare, hk]; exact hc, _, hpar, hp⟩
+  · rintro ⟨i, hi, hx, e, he, hy⟩
+    exact ⟨⟨w.name, i.key, e.1, e.2.1, e.2.2⟩,
+      ⟨(mem_worker_edges S user sel w _).mpr ⟨rfl, i, hi, rfl, he⟩, hx⟩, hy⟩
+
+theorem allowed_sub (S : Suite) (user : List (String × VLine)) (w v : Worker) (hv : v.restr = []) :
+    ∀ vm x, x ∈ allowed S user w vm → x ∈ allowed S user v vm := by
+  intro vm x hx
+  simp only [allowed, hv, List.filter_nil, List.foldl_nil] at hx ⊢
+  exact (foldl_applyV_sublist _ _).subset hx
+
+theorem lookupD_nil (l : List (String × List String)) (k : String) (h : k ∉ l.map Prod.fst) :
+    lookupD l k [] = [] := by
+  unfold lookupD
+  cases hf : l.find? (fun e => e.1 == k) with
+  | none => rfl
+  | some e =>
+    exfalso
+    have h1 := List.mem_of_find?_eq_some hf
+    have h2 := List.find?_some hf
+    simp only [beq_iff_eq] at h2
+    exact h (List.mem_map.mpr ⟨e, h1, h2⟩)
+
+/-- a vm the suite does not define has no variants for any worker -/
+theorem allowed_nil (S : Suite) (user : List (String × VLine)) (w : Worker) (vm : String)
+    (h : vm ∉ S.variants.map Prod.fst) : allowed S user w vm = [] := by
+  simp only [allowed, lookupD_nil S.variants vm h]
+  have h1 := List.sublist_nil.mp (foldl_applyV_sublist (user.filter (fun e => e.1 == vm)) [])
+  rw [h1]
+  exact List.sublist_nil.mp (foldl_applyV_sublist _ [])
+
+/-! ## suites for the counterexamples and non-vacuity examples of C09 -/
+namespace RDemo
+open Demo
+
+/-- only the tests listed under `leaves` -/
+def selLeaves : List RLine := [{ neg := false, alts := [[["leaves"]]] }]
+
+/-- a two-vm leaf that needs the one-vm creation test on its first vm -/
+def tPair : Test :=
+  ⟨["quick", "p"], ["vm1", "vm2"], false, [["all"], ["leaves"]], [⟨"vm1", "images", ["install"], "install", ""⟩], []⟩
+
+/-- the same leaf supporting only variant `X` of vm2 -/
+def tPairX : Test := { tPair with only := [("vm2", ["X"])] }
+
+/-- cx1: the restriction leaves no variant of vm2 -/
+def cx1 : Suite := ⟨[("vm1", ["A"]), ("vm2", ["X"])], "vm1", [tInstall, tPair]⟩
+/-- cx2: vm2 keeps variant `Y`, but the only dependant supports `X` alone -/
+def cx2 : Suite := ⟨[("vm1", ["A"]), ("vm2", ["X", "Y"])], "vm1", [tInstall, tPairX]⟩
+
+def free : Worker := ⟨"net1", []⟩
+def noX : Worker := ⟨"net2", [("vm2", (true, ["X"]))]⟩
+
+/-- cx3 / labels: `d` on vm1 needs the group `m` composed on vm1 and vm2; `m` needs `install` on vm2 -/
+def tM : Test :=
+  ⟨["internal", "m"], ["vm1", "vm2"], false, [["all"]], [⟨"vm2", "images", ["install"], "install", "mst"⟩], []⟩
+def tD1 : Test :=
+  ⟨["quick", "d"], ["vm1"], false, [["all"], ["leaves"]], [⟨"vm1", "images", ["m"], "", ""⟩], []⟩
+def cx3 : Suite := ⟨[("vm1", ["A"]), ("vm2", ["X", "Y"])], "vm1", [tInstall, tM, tD1]⟩
+def onlyX : Worker := ⟨"net2", [("vm2", (false, ["X"]))]⟩
+def noXY : Worker := ⟨"net3", [("vm2", (true, ["X", "Y"]))]⟩
+
+/-- the demo suite's worker restricted to variant `A` of vm1 -/
+def onlyA : Worker := ⟨"net2", [("vm1", (false, ["A"]))]⟩
+
+end RDemo
+
 end I2N.Resolve
